@@ -45,7 +45,7 @@ func countByte(s string, c byte) int {
 
 // H_C15_Report: the Sentry report is faithful to the structure of the error.
 func H_C15_Report(v *sym.V) {
-	if v.Choice("nil", 8) == 7 {
+	if v.Choice("nil", 2) == 1 {
 		ev, ex := errors.BuildSentryReport(nil)
 		v.Assert("nil-report", ev == nil && ex == nil)
 		return
